@@ -162,3 +162,21 @@ def alias_reuse_scenarios(tag):
                   {"a": "quiesce"}, {"a": "closeConn", "g": "X", "ctxMs": 2000, "wait": True}, {"a": "quiesce", "ms": 50}]
         scs.append({"id": "%s/aliasReuse/%d" % (tag, k), "kind": "iscp", "conn": {"aliasReuse": True}, "p": {"track": "u2"}, "steps": steps})
     return scs
+
+
+def early_grant_scenarios(tag):
+    """the broker grants data-id aliases early: for an id the client has not sent yet, for an id it never sends, and twice the same grant;
+    afterwards the ids are written - they travel in full form or under exactly the granted alias, totals and numbering are unaffected."""
+    scs = []
+    w = lambda t, idn: [{"a": "write", "g": "W", "obj": "U1", "id": idn, "pts": [[t, 8]], "ctxMs": 2000, "wait": True},
+                        {"a": "flush", "g": "W", "obj": "U1", "ctxMs": 2000, "wait": True}]
+    for k, grants in enumerate(([{"B": 61}], [{"B": 61}, {"B": 61}], [{"A": 62, "B": 63}], [{"B": 61}, {"A": 64}])):
+        steps = [{"a": "connect", "must": True}, {"a": "openUp", "obj": "U1", "qos": "reliable", "policy": {"k": "none"}, "must": True, "closeTimeoutMs": 3000}]
+        steps += w(1, "A") + [{"a": "await", "ev": "BRecvChunk", "match": {"seq": 1}, "ms": 1000, "must": True}]
+        for g in grants:
+            steps += [{"a": "ack", "obj": "U1", "seqs": [], "aliases": g}, {"a": "sleep", "ms": 30}]
+        steps += w(2, "B") + w(3, "A") + w(4, "B") + [{"a": "join", "obj": "W"}, {"a": "ack", "obj": "U1", "all": True}, {"a": "sleep", "ms": 60},
+                  {"a": "closeUp", "g": "C", "obj": "U1", "ctxMs": 4000}, {"a": "ackUntilIdle", "obj": "U1", "src": "C", "ms": 3000}, {"a": "join", "obj": "C"},
+                  {"a": "quiesce"}, {"a": "closeConn", "g": "X", "ctxMs": 2000, "wait": True}, {"a": "quiesce", "ms": 50}]
+        scs.append({"id": "%s/earlyGrant/%d" % (tag, k), "kind": "iscp", "conn": {}, "steps": steps})
+    return scs
